@@ -187,7 +187,9 @@ def run_check(prop, tier, seed, budget=None, only=None, keep=False, quiet=False,
         procs_args = {}
         for i in range(shards):
             out = os.path.join(workdir, "result-%d.json" % i)
-            args = [binary, "-tier", tier, "-seed", str(seed), "-out", out, "-shard", "%d/%d" % (i, shards)]
+            # "full_in_quick": the whole (thorough) enumeration is cheap enough to be the per-change check as well
+            btier = "thorough" if cfg.get("full_in_quick") else tier
+            args = [binary, "-tier", btier, "-seed", str(seed), "-out", out, "-shard", "%d/%d" % (i, shards)]
             if shards > 1:
                 args += ["-workers", str(max(1, NCPU // shards))]
             if budget:
